@@ -3,7 +3,7 @@
    BeautifulSoup prettify, tied char for char to the implementation), read back by an HTML
    tokenizer specification; they hold for ALL link texts, targets, nested text diffs, titles. *)
 From Coq Require Import List NArith ZArith Arith Bool String.
-From WMD Require Import Gen.Tables Lib.Str Lib.PyChars Lib.Escape Model.Dmp Model.LinksHtml Proofs.EscapeProofs Proofs.LinksHtmlProofs.
+From WMD Require Import Gen.Tables Lib.Str Lib.PyChars Lib.Escape Model.Dmp Model.LinksHtml Proofs.EscapeProofs Proofs.LinksHtmlProofs Proofs.LinksRowAnchors.
 Import ListNotations.
 Open Scope N_scope.
 
@@ -36,6 +36,17 @@ Theorem C10_plain_row : forall code text href,
   emit (html_escape false (squash ([40] ++ href ++ [41]))) ++
   [TEnd (s2l "a"); TEnd (s2l "td"); TEnd (s2l "tr")].
 Proof. exact plain_row_tokens. Qed.
+
+(* the links of a row are exactly the entry's target(s): one for unchanged / added / removed entries
+   and for changed entries whose target is the same, otherwise the new then the old one - whatever the
+   nested diffs contain *)
+Theorem C10_row_link_targets : forall e,
+  anchors (row_tokens e) =
+  match e with
+  | EPlain _ _ href => [href_body href]
+  | EChanged _ _ old new => href_body new :: (if str_eqb old new then [] else [href_body old])
+  end.
+Proof. exact row_link_targets. Qed.
 
 (* what is between the quotes / tags decodes to the original string, whatever characters it has *)
 Theorem C10_target_decodes : forall v,
